@@ -1,6 +1,7 @@
 package chain
 
 import (
+	"go.sia.tech/core/types"
 	"go.sia.tech/coreutils/internal/vapi"
 )
 
@@ -41,6 +42,17 @@ func (c *absChain) pruneAndCheck() {
 	_, gok := c.m.Block(absID(0))
 	vapi.Assert("prune.genesis", gok == (h == 0))
 	c.checkMinReorg("prune")
+	// the read-only queries keep working on a pruned store (a missing body is
+	// an absent result or an error, never a panic)
+	if absP == nil {
+		newAbsPool() // (the fee query revalidates the pool, which goes through the pool stubs)
+	}
+	_ = c.m.RecommendedFee()
+	_, _ = c.m.History()
+	_, _, _ = c.m.Headers(post.best[0], 10)
+	_, _, _ = c.m.BlocksForHistory([]types.BlockID{post.best[0].ID}, 10)
+	_, _, uerr := c.m.UpdatesSince(post.best[0], 10)
+	vapi.Assert("prune.follow-from-pruned-index-is-an-error-not-a-guess", uerr != nil || h <= 1 || tipH == 0)
 	if h > 0 {
 		vapi.Reach("pruned")
 	}
